@@ -6,6 +6,7 @@ import (
 	"bytes"
 	"errors"
 	"fmt"
+	"github.com/fxamacker/cbor/v2"
 	"math/rand/v2"
 	"sync"
 	"time"
@@ -236,9 +237,15 @@ type faultJob struct {
 	kind    string
 	bytePos int
 	bit     uint
+	rep     int // replay-kept-state: which consecutive attempt against the same router this is
 }
 
 func (j faultJob) String() string {
+	if j.rep > 0 {
+		jj := j
+		jj.rep = 0
+		return jj.String() + fmt.Sprintf(" repeated(%d)", j.rep)
+	}
 	return fmt.Sprintf("%s %s %s #%d %s byte=%d bit=%d", j.class.name, j.dir, msgNames[j.msgIdx], j.msgIdx, j.kind, j.bytePos, j.bit)
 }
 
@@ -247,10 +254,16 @@ func runFault(res *core.Result, idA, idB *m.Address, j faultJob, baseline [2][][
 	var mu sync.Mutex
 	applied := false
 	var held []byte
+	var afterFault [][]byte // what the victim sent after the faulty message reached it
 	plan := func(d wire.Dir, idx int, msg []byte) [][]byte {
 		mu.Lock()
 		defer mu.Unlock()
 		if d != j.dir {
+			// the victim's message number k+1 is its answer to the peer's message number k (its own request and its
+			// answers to earlier, genuine messages travel independently and may still be on their way)
+			if applied && idx == j.msgIdx+1 {
+				afterFault = append(afterFault, append([]byte(nil), msg...))
+			}
 			return [][]byte{msg}
 		}
 		switch j.kind {
@@ -348,6 +361,33 @@ func runFault(res *core.Result, idA, idB *m.Address, j faultJob, baseline [2][][
 			return
 		}
 	default:
+		if j.kind == "replay-kept-state" {
+			// the victim has seen this very message before (its per-peer timestamp filter still holds it): it must
+			// abort right there. Whatever it sends afterwards may only be the error notice, never the next handshake step.
+			mu.Lock()
+			sent := afterFault
+			mu.Unlock()
+			for _, msg := range sent {
+				if len(msg) < 3 {
+					continue
+				}
+				f, err := frame.NewFrameBuilder().ParseFrame(append([]byte(nil), msg[2:]...), nil, 0)
+				if err != nil {
+					continue
+				}
+				var notice struct {
+					Err string `cbor:"err,omitempty"`
+				}
+				uerr := cbor.Unmarshal(f.MessageData(), &notice)
+				f.ReturnToPool()
+				if uerr != nil || notice.Err == "" {
+					res.Violate(fmt.Sprintf("handshake-continued-after-replay:%s", msgNames[j.msgIdx]),
+						fmt.Sprintf("%s%s: the router that received a message it had already accepted in an earlier connection did not abort: it went on to send its next handshake message", j, map[int]string{0: "", 1: " (second time against the same router)", 2: " (third time against the same router)"}[j.rep]), wit)
+					return
+				}
+				res.Count("replays_answered_with_error_notice", 1)
+			}
+		}
 		if reg {
 			res.Violate(fmt.Sprintf("link-registered-after-fault:%s:%s", j.kind, msgNames[j.msgIdx]),
 				fmt.Sprintf("%s (%s): the router that received the faulty message registered a link (%s); its setup returned err=%v", j, field, what, vres.Err), wit)
@@ -598,6 +638,7 @@ func run(c *core.Ctx) {
 	doubleDial(res, core.RNG("c04/doubledial"))
 	foreignAck(res, core.RNG("c04/foreignack"))
 	pingThenImpostor(res, core.RNG("c04/pingimpostor"))
+	staleRequest(res, core.RNG("c04/stale"))
 	res.Sample(jobs[0].String())
 	res.Sample(jobs[len(jobs)/2].String())
 	res.Sample(jobs[len(jobs)-1].String())
@@ -609,8 +650,13 @@ func run(c *core.Ctx) {
 			rc := recs[j.class.name]
 			if j.kind == "replay-kept-state" {
 				// kept-state routers are shared: serialise their use
+				// ... and every such replay is tried three times in a row against the same router: a refusal must not
+				// prepare the ground for the next attempt
 				keptMu.Lock()
-				runFault(res, idA, idB, j, rc.base, rc.old, rc.ka, rc.kb)
+				for rep := 0; rep < 3; rep++ {
+					j.rep = rep
+					runFault(res, idA, idB, j, rc.base, rc.old, rc.ka, rc.kb)
+				}
 				keptMu.Unlock()
 				continue
 			}
